@@ -260,6 +260,26 @@ def _pairwise(fn_name: str, **kw):
 
 for _n in ["ssd_loss", "mse_loss", "l1_loss", "mae_loss"]:
     op(f"losses.{_n}")(_pairwise(_n))
+def _pairwise_norm(fn_name: str, how: str, **kw):
+    """the normalisation factor given as a TENSOR: a learnable scalar (0-d or one element), or the documented recipe
+    max_difference(source, target)^2 computed from the images that are being optimised"""
+    def build(case):
+        from deepali.core.math import max_difference
+        gen, a, b, mask = _pair(case)
+        fn = getattr(L, fn_name)
+        red = case.get("reduction", "mean")
+        kws = dict(kw)
+        if how == "recipe":
+            return {"source": a, "target": b}, lambda: fn(a, b, mask=mask, norm=max_difference(a, b).square(), reduction=red, **kws)
+        nrm = leaf(torch.tensor(2.5 if how == "scalar0d" else [2.5], dtype=F64))
+        return {"source": a, "target": b, "norm": nrm}, lambda: fn(a, b, mask=mask, norm=nrm, reduction=red, **kws)
+    return build
+
+
+for _n in ["ssd_loss", "mse_loss", "mae_loss"]:
+    for _how in ("scalar0d", "scalar1", "recipe"):
+        op(f"losses.{_n}[norm={_how}]")(_pairwise_norm(_n, _how))
+op("losses.huber_loss[norm=scalar0d]")(_pairwise_norm("huber_loss", "scalar0d", delta=0.7))
 op("losses.huber_loss")(_pairwise("huber_loss", delta=0.7))
 op("losses.smooth_l1_loss")(_pairwise("smooth_l1_loss", beta=0.6))
 
